@@ -166,11 +166,24 @@ fn tree_plan<'a, Tr: TreeApi + Sync>(t: &'a Tr, m: &SeqModel, nq: usize, seed: u
     for _ in 0..nq {
         let c = if m.syms.is_empty() || rng.chance(1, 10) { rng.u128() % (m.max().unwrap_or(0) + 2) } else { *rng.pick(&m.syms) };
         let cs = <Tr::Item as Sym>::from_u128(c.min(<Tr::Item as Sym>::max_u128()));
-        let kind = rng.below(4) as u8;
-        let i = match kind {
+        let mut kind = rng.below(8) as u8;
+        let i = match kind % 4 {
             2 => rng.usize_below(m.count(c) + 2),
             _ => rng.usize_below(n + 2),
         };
+        // kinds 4..8 are the unchecked twins of 0..4: only where the documented precondition holds
+        // (index in range, symbol of the sequence, occurrence exists), otherwise the checked method is used
+        if kind >= 4 {
+            let valid_sym = c <= <Tr::Item as Sym>::max_u128() && m.count(c) > 0;
+            let ok = match kind {
+                4 => i < n,
+                5 | 7 => valid_sym && i <= n,
+                _ => valid_sym && i < m.count(c),
+            };
+            if !ok {
+                kind -= 4;
+            }
+        }
         qs.push((kind, cs, i));
         // locality: runs of queries on the same symbol with consecutive indices (what a memo or
         // cursor inside the structure would key on)
@@ -178,7 +191,8 @@ fn tree_plan<'a, Tr: TreeApi + Sync>(t: &'a Tr, m: &SeqModel, nq: usize, seed: u
             let run = 1 + rng.usize_below(6);
             for d in 1..=run {
                 if qs.len() < nq {
-                    qs.push((kind, cs, i + d));
+                    // (runs continue with the checked method: i + d may leave the valid range)
+                    qs.push((kind % 4, cs, i + d));
                 }
             }
         }
@@ -194,9 +208,17 @@ fn tree_plan<'a, Tr: TreeApi + Sync>(t: &'a Tr, m: &SeqModel, nq: usize, seed: u
                 0 => t.get_(i).map(|x| x.to_u128()).unwrap_or(u128::MAX),
                 1 => opt(t.rank_(c, i)),
                 2 => opt(t.select_(c, i)),
-                _ => match t.rank_prefetch_(c, i) {
+                3 => match t.rank_prefetch_(c, i) {
                     Some(r) => opt(r),
                     None => opt(t.rank_(c, i)),
+                },
+                // SAFETY: the plan only contains these kinds where the precondition was established from the model
+                4 => (unsafe { t.get_unchecked_(i) }).to_u128(),
+                5 => (unsafe { t.rank_unchecked_(c, i) }) as u128,
+                6 => (unsafe { t.select_unchecked_(c, i) }) as u128,
+                _ => match unsafe { t.rank_prefetch_unchecked_(c, i) } {
+                    Some(r) => r as u128,
+                    None => (unsafe { t.rank_unchecked_(c, i) }) as u128,
                 },
             }
         }),
@@ -441,6 +463,136 @@ fn run_sparse_select(rep: &mut Rep, n: usize, seed: u64, nq: usize, threads: &[u
     rep.gate_max("max_sparse_symbol_occurrences", c3 as u64);
 }
 
+/// the operations `run_sparse_bits` needs, on the three bit structures with select support
+trait SparseBits: Sync + serde::Serialize {
+    fn sb_new(bv: qwt::BitVector) -> Self;
+    fn sb_get(&self, i: usize) -> Option<bool>;
+    fn sb_select1(&self, k: usize) -> Option<usize>;
+    fn sb_select0(&self, k: usize) -> Option<usize>;
+    /// # Safety: k < number of ones / zeros
+    unsafe fn sb_select1_unchecked(&self, k: usize) -> usize;
+    unsafe fn sb_select0_unchecked(&self, k: usize) -> usize;
+    fn sb_rank1(&self, i: usize) -> Option<usize>;
+    fn sb_rank0(&self, i: usize) -> Option<usize>;
+    /// # Safety: i < len
+    unsafe fn sb_rank1_unchecked(&self, i: usize) -> usize;
+}
+
+macro_rules! impl_sparse_bits_rs {
+    ($ty:ty) => {
+        impl SparseBits for $ty {
+            fn sb_new(bv: qwt::BitVector) -> Self { <$ty>::new(bv) }
+            fn sb_get(&self, i: usize) -> Option<bool> { qwt::AccessBin::get(self, i) }
+            fn sb_select1(&self, k: usize) -> Option<usize> { qwt::SelectBin::select1(self, k) }
+            fn sb_select0(&self, k: usize) -> Option<usize> { qwt::SelectBin::select0(self, k) }
+            unsafe fn sb_select1_unchecked(&self, k: usize) -> usize { qwt::SelectBin::select1_unchecked(self, k) }
+            unsafe fn sb_select0_unchecked(&self, k: usize) -> usize { qwt::SelectBin::select0_unchecked(self, k) }
+            fn sb_rank1(&self, i: usize) -> Option<usize> { qwt::RankBin::rank1(self, i) }
+            fn sb_rank0(&self, i: usize) -> Option<usize> { qwt::RankBin::rank0(self, i) }
+            unsafe fn sb_rank1_unchecked(&self, i: usize) -> usize { qwt::RankBin::rank1_unchecked(self, i) }
+        }
+    };
+}
+impl_sparse_bits_rs!(qwt::RSWide);
+impl_sparse_bits_rs!(qwt::RSNarrow);
+
+impl SparseBits for qwt::DArray<true> {
+    fn sb_new(bv: qwt::BitVector) -> Self { qwt::DArray::<true>::new(bv) }
+    fn sb_get(&self, i: usize) -> Option<bool> { qwt::AccessBin::get(self, i) }
+    fn sb_select1(&self, k: usize) -> Option<usize> { qwt::SelectBin::select1(self, k) }
+    fn sb_select0(&self, k: usize) -> Option<usize> { qwt::SelectBin::select0(self, k) }
+    unsafe fn sb_select1_unchecked(&self, k: usize) -> usize { qwt::SelectBin::select1_unchecked(self, k) }
+    unsafe fn sb_select0_unchecked(&self, k: usize) -> usize { qwt::SelectBin::select0_unchecked(self, k) }
+    // DArray has no rank: the rank slots of the plan read a bit instead
+    fn sb_rank1(&self, i: usize) -> Option<usize> { qwt::AccessBin::get(self, i).map(|b| b as usize) }
+    fn sb_rank0(&self, i: usize) -> Option<usize> { qwt::AccessBin::get(self, i).map(|b| !b as usize) }
+    unsafe fn sb_rank1_unchecked(&self, i: usize) -> usize { qwt::AccessBin::get_unchecked(self, i) as usize }
+}
+
+/// long and very sparse bit vectors (two select samples / hints millions of bits apart: where a search cursor or a
+/// last-answer cache would live), shared by threads that select different occurrences; checked and unchecked variants
+fn run_sparse_bits(rep: &mut Rep, n: usize, seed: u64, nq: usize, threads: &[usize], rounds: usize) {
+    let mut rng = Rng::new(seed);
+    let n_ones = 3000usize;
+    let mut ones: Vec<usize> = (0..n_ones).map(|_| rng.usize_below(n)).collect();
+    ones.sort_unstable();
+    ones.dedup();
+    let qseed = rng.u64();
+    for complement in [false, true] {
+        // occurrences of the sparse value / of the dense value
+        let sparse_at = |k: usize| ones.get(k).copied();
+        let bv: qwt::BitVector = {
+            let mut b = qwt::BitVectorMut::new();
+            b.extend_with_zeros(n);
+            for &p in &ones {
+                b.set(p, true);
+            }
+            if complement {
+                let mut c = qwt::BitVectorMut::new();
+                let mut it = ones.iter().copied().peekable();
+                for i in 0..n {
+                    if it.peek() == Some(&i) {
+                        it.next();
+                        c.push(false);
+                    } else {
+                        c.push(true);
+                    }
+                }
+                c.into()
+            } else {
+                b.into()
+            }
+        };
+        macro_rules! plan {
+            ($ty:ty, $name:expr, $s0:expr) => {{
+                let b = <$ty as SparseBits>::sb_new(bv.clone());
+                let bytes0 = bincode::serialize(&b).unwrap_or_default();
+                let mut r = Rng::new(qseed);
+                // (kind, k): selects of the sparse value (checked / unchecked), a few ranks and selects of the dense value
+                let qs: Vec<(u8, usize)> = run_queries(&mut r, nq, 8, ones.len() + 2).into_iter().map(|(k, i)| if k == 1 && i >= ones.len() { (0, i) } else { (k, i) }).collect();
+                for &(kind, k) in qs.iter().take(300) {
+                    if kind <= 1 {
+                        if complement {
+                            chk!(rep, "select0", ($name, k), Exp::Is(sparse_at(k)), if $s0 { b.sb_select0(k) } else { sparse_at(k) });
+                        } else {
+                            chk!(rep, "select1", ($name, k), Exp::Is(sparse_at(k)), b.sb_select1(k));
+                        }
+                    }
+                }
+                let p = Plan {
+                    name: format!("{}[sparse, {}]", $name, if complement { "zeros" } else { "ones" }),
+                    s: &b,
+                    nq,
+                    eval: Box::new(move |b: &$ty, q: usize| {
+                        let (kind, k) = qs[q];
+                        let pos = (k * 7919) % (n + 1);
+                        match (kind, complement) {
+                            (0, false) | (2, false) => opt(b.sb_select1(k)),
+                            // SAFETY: kind 1 only with k < number of ones (see the plan above)
+                            (1, false) => (unsafe { b.sb_select1_unchecked(k) }) as u128,
+                            (0, true) | (2, true) if $s0 => opt(b.sb_select0(k)),
+                            (1, true) if $s0 => (unsafe { b.sb_select0_unchecked(k) }) as u128,
+                            (3, _) => opt(b.sb_rank1(pos)),
+                            (4, _) => opt(b.sb_rank0(pos)),
+                            (5, false) if $s0 => opt(b.sb_select0(pos / 2)),
+                            (5, true) => opt(b.sb_select1(pos / 2)),
+                            (6, _) => (unsafe { b.sb_rank1_unchecked(pos.min(n - 1)) }) as u128,
+                            _ => b.sb_get(pos).map(|x| x as u128).unwrap_or(u128::MAX),
+                        }
+                    }),
+                    ser: Box::new(|b: &$ty| bincode::serialize(b).unwrap_or_default()),
+                    bytes0,
+                };
+                monitor_plan(rep, &p, threads, rounds, seed);
+            }};
+        }
+        plan!(qwt::RSWide, "RSWide", true);
+        plan!(qwt::RSNarrow, "RSNarrow", true);
+        plan!(qwt::DArray<true>, "DArray<true>", true);
+    }
+    rep.gate_max("max_sparse_bits_len", n as u64);
+}
+
 /// batches interleaved over several live structures (catches keyed global caches)
 fn run_interleaved(rep: &mut Rep, seed: u64, n: usize, nq: usize) {
     let mut rng = Rng::new(seed);
@@ -542,6 +694,15 @@ fn cases(cfg: &Cfg) -> Vec<Case> {
         let desc = J::obj().set("n", big_n).set("seed", seed).set("queries", nq).set("threads", format!("{:?}", threads)).set("rounds", rounds);
         out.push(Case::new("RSQVector256/512, QWT256 with one sparse symbol", "sparse_select", desc, (big_n as u64 + nq as u64 * 40) * rounds as u64 * 3, move |rep: &mut Rep| {
             run_sparse_select(rep, big_n, seed, nq, &threads, rounds)
+        }));
+    }
+    if !tiny {
+        let seed = rng.u64();
+        let threads = threads.clone();
+        let big_n = (9usize << 20) + 12_345;
+        let desc = J::obj().set("n", big_n).set("ones", 3000).set("seed", seed).set("queries", nq).set("threads", format!("{:?}", threads)).set("rounds", rounds);
+        out.push(Case::new("RSWide, RSNarrow, DArray<true> over 9.4 Mibit with 3000 ones (and the complement)", "sparse_bits", desc, (big_n as u64 / 8 + nq as u64 * 40) * rounds as u64 * 6, move |rep: &mut Rep| {
+            run_sparse_bits(rep, big_n, seed, nq, &threads, rounds)
         }));
     }
     {
